@@ -282,3 +282,491 @@ theorem setPen_ok {st : St} (inv : SInv st) {win : Nat} {ww : Win} (hw : LiveW s
     exact assignPen_ok inv2 hw2 (by rw [getX_setX_self _ hwin1]) (by simpa using hp1) hf1
 
 end Tickit.Life
+
+namespace Tickit.Life
+open WinTree (Id Win Req Change Tree)
+
+/-! ## the terminal -/
+
+theorem heldT_spec {st : St} (h : heldT st = true) : st.term.freed = false ∧ 0 < st.term.appRefs := by
+  unfold heldT at h
+  simp only [Bool.and_eq_true, Bool.not_eq_true', decide_eq_true_eq] at h
+  exact h
+
+/-- A change of the terminal object. -/
+theorem SInv.set_term {st : St} (inv : SInv st) (tm : Obj)
+    (h1 : tm.freed = false → (∃ r, LiveW st.tree 0 r) → tm.refcount = (tm.appRefs : Int) + 1)
+    (h2 : tm.freed = false → (¬ ∃ r, LiveW st.tree 0 r) → tm.refcount = (tm.appRefs : Int) ∧ 1 ≤ tm.refcount)
+    (h3 : tm.freed = true → ¬ ∃ r, LiveW st.tree 0 r) : SInv { st with term := tm } := by
+  refine ⟨inv.tinv, inv.wx_size, inv.rc, List.nodup_nil, by intro i hi; simp at hi, inv.dead_pen,
+    ⟨inv.pens.rc, inv.pens.ex⟩, ?_, ?_, ?_, inv.rb_rc⟩
+  · intro hf h; exact h1 hf (by rcases h with h | h; exact h; simp at h)
+  · intro hf h; exact h2 hf (fun h' => h (.inl h'))
+  · intro hf h; exact h3 hf (by rcases h with h | h; exact h; simp at h)
+
+/-- `tickit_term_ref` by the application. -/
+theorem tref_ok {st : St} (inv : SInv st) (h : heldT st = true) :
+    SInv { st with term := { st.term with appRefs := st.term.appRefs + 1, refcount := st.term.refcount + 1 } } := by
+  obtain ⟨hf, _⟩ := heldT_spec h
+  refine inv.set_term _ ?_ ?_ ?_
+  · intro _ hr
+    have := inv.term_held hf (.inl hr)
+    show st.term.refcount + 1 = ((st.term.appRefs + 1 : Nat) : Int) + 1
+    omega
+  · intro _ hr
+    have := inv.term_free hf (by rintro (h' | h'); exact hr h'; simp at h')
+    show st.term.refcount + 1 = ((st.term.appRefs + 1 : Nat) : Int) ∧ 1 ≤ st.term.refcount + 1
+    omega
+  · intro h'; rw [show ({ st.term with appRefs := st.term.appRefs + 1, refcount := st.term.refcount + 1 } : Obj).freed = st.term.freed from rfl, hf] at h'; cases h'
+
+/-- `tickit_term_unref` by the application. -/
+theorem tunref_ok {st : St} (inv : SInv st) (h : heldT st = true) :
+    ∃ st', termUnref { st with term := { st.term with appRefs := st.term.appRefs - 1 } } = .ok st' ∧ SInv st' := by
+  obtain ⟨hf, hpos⟩ := heldT_spec h
+  have hr1 : 1 ≤ st.term.refcount := by
+    by_cases hr : ∃ r, LiveW st.tree 0 r
+    · have := inv.term_held hf (.inl hr); omega
+    · exact (inv.term_free hf (by rintro (h' | h'); exact hr h'; simp at h')).2
+  unfold termUnref
+  simp only [hf, Bool.false_eq_true, if_false]
+  have hge : ¬ st.term.refcount < 1 := by omega
+  simp only [hge, if_false, pure_ok]
+  refine ⟨_, rfl, ?_⟩
+  refine inv.set_term _ ?_ ?_ ?_
+  · intro _ hr
+    have := inv.term_held hf (.inl hr)
+    simp only [dropped_refcount, dropped_appRefs]
+    omega
+  · intro hf' hr
+    have := inv.term_free hf (by rintro (h' | h'); exact hr h'; simp at h')
+    simp only [dropped_freed, decide_eq_false_iff_not] at hf'
+    simp only [dropped_refcount, dropped_appRefs]
+    omega
+  · intro hf' hr
+    have := inv.term_held hf (.inl hr)
+    simp only [dropped_freed, decide_eq_true_eq] at hf'
+    omega
+
+/-! ## render buffers and strings -/
+
+theorem heldB_spec {st : St} {k : Nat} (h : heldB st k = true) : ∃ b, st.rbs[k]? = some b ∧ b.freed = false := by
+  unfold heldB at h
+  cases hb : st.rbs[k]? with
+  | none => simp [hb] at h
+  | some b =>
+    simp only [hb, Bool.and_eq_true, Bool.not_eq_true'] at h
+    exact ⟨b, rfl, h.1⟩
+
+/-- A change of one buffer object. -/
+theorem SInv.set_rb {st : St} (inv : SInv st) (k : Nat) (b' : RBObj) (h : b'.freed = false → 1 ≤ b'.refcount) :
+    SInv { st with rbs := st.rbs.setIfInBounds k b' } := by
+  refine ⟨inv.tinv, inv.wx_size, inv.rc, List.nodup_nil, by intro i hi; simp at hi, inv.dead_pen,
+    ⟨inv.pens.rc, inv.pens.ex⟩, inv.term_held, inv.term_free, inv.term_dead, ?_⟩
+  intro j b hb hf
+  simp only [Array.getElem?_setIfInBounds] at hb
+  by_cases hkj : k = j
+  · subst hkj
+    simp only [if_true] at hb
+    split at hb
+    · cases hb; exact h hf
+    · cases hb
+  · simp only [hkj, if_false] at hb
+    exact inv.rb_rc j b hb hf
+
+theorem SInv.set_strs {st : St} (inv : SInv st) (s : Array StrObj) : SInv { st with strs := s } :=
+  ⟨inv.tinv, inv.wx_size, inv.rc, List.nodup_nil, by intro i hi; simp at hi, inv.dead_pen,
+    ⟨inv.pens.rc, inv.pens.ex⟩, inv.term_held, inv.term_free, inv.term_dead, inv.rb_rc⟩
+
+theorem rbUpd_ok {st : St} (inv : SInv st) (k : Nat) (f : RBObj → Out RBObj)
+    (hf : ∀ b, ∃ b', f b = .ok b' ∧ b'.freed = b.freed ∧ b'.refcount = b.refcount) :
+    ∃ st' r, rbUpd st k f = .ok (st', r) ∧ SInv st' := by
+  unfold rbUpd
+  by_cases hh : heldB st k = true
+  · obtain ⟨b, hb, hfb⟩ := heldB_spec hh
+    simp only [hh, Bool.not_true, Bool.false_eq_true, if_false, hb, Option.getD_some]
+    obtain ⟨b', hfb', h1, h2⟩ := hf b
+    simp only [hfb', bind_ok, pure_ok]
+    exact ⟨_, _, rfl, inv.set_rb k b' (fun h => by rw [h2]; exact inv.rb_rc k b hb (by rw [← h1]; exact h))⟩
+  · simp only [hh, Bool.not_false, if_true, skipR, pure_ok]
+    exact ⟨_, _, rfl, inv⟩
+
+/-! ## copy-out calls -/
+
+theorem extent_le {c : CopyOut} {n : Nat} (h : c.Bounded n) : c.extent ≤ n := by
+  unfold CopyOut.extent
+  have : ∀ (l : List (Nat × UInt8)) (m : Nat), m ≤ n → (∀ p ∈ l, p.1 < n) → l.foldl (fun m p => max m (p.1 + 1)) m ≤ n := by
+    intro l
+    induction l with
+    | nil => intro m hm _; simpa using hm
+    | cons x xs ih =>
+      intro m hm hl
+      simp only [List.foldl_cons]
+      refine ih _ ?_ (fun p hp => hl p (by simp [hp]))
+      have := hl x (by simp)
+      omega
+  exact this c.stores 0 (by omega) h
+
+theorem showBuffer_some {len : Int} {c : CopyOut} (h : c.Bounded len.toNat) : ∃ s, showBuffer len c = some s := by
+  unfold showBuffer
+  by_cases hl : len < 0
+  · simp [hl]
+  · simp only [hl, if_false]
+    have := extent_le h
+    have h2 : ¬ c.extent > max len.toNat 1 := by omega
+    simp only [h2, if_false]
+    split <;> exact ⟨_, rfl⟩
+
+end Tickit.Life
+
+namespace Tickit.Life
+open WinTree (Id Win Req Change Tree)
+
+/-! ## one step -/
+
+theorem SInv.init (lines cols : Int) :
+    SInv { tree := { wins := #[({ rect := ⟨0, 0, lines, cols⟩, isRoot := true } : Win)], root := {} }, wx := #[{}],
+           term := { refcount := 2 } } := by
+  have hget : ∀ (i : Nat) (w : Win), (#[({ rect := ⟨0, 0, lines, cols⟩, isRoot := true } : Win)])[i]? = some w →
+      i = 0 ∧ w = { rect := ⟨0, 0, lines, cols⟩, isRoot := true } := by
+    intro i w h
+    cases i with
+    | zero => simp at h; exact ⟨rfl, h.symm⟩
+    | succ n => simp at h
+  have hlive : ∀ (i : Nat) (w : Win), LiveW ({ wins := #[({ rect := ⟨0, 0, lines, cols⟩, isRoot := true } : Win)], root := {} } : Tree) i w →
+      i = 0 ∧ w = { rect := ⟨0, 0, lines, cols⟩, isRoot := true } := fun i w h => hget i w h.1
+  have tinv : TInv ({ wins := #[({ rect := ⟨0, 0, lines, cols⟩, isRoot := true } : Win)], root := {} } : Tree) := by
+    refine ⟨⟨{ rect := ⟨0, 0, lines, cols⟩, isRoot := true }, by simp, rfl, rfl⟩, ?_, ?_, ?_, ?_, ?_, ?_, ?_, ?_⟩
+    · intro i w h _; exact (hget i w h).1
+    · intro c cw hl p hp; obtain ⟨_, rfl⟩ := hlive c cw hl; cases hp
+    · intro p pw hl c hc; obtain ⟨_, rfl⟩ := hlive p pw hl; simp at hc
+    · intro p pw hl; obtain ⟨_, rfl⟩ := hlive p pw hl; exact List.nodup_nil
+    · intro i w hl _; obtain ⟨_, rfl⟩ := hlive i w hl; rfl
+    · intro r hr; simp at hr
+    · intro p pw hl c hf; obtain ⟨_, rfl⟩ := hlive p pw hl; cases hf
+    · intro s hs; cases hs
+  have hroot : ∃ r, LiveW ({ wins := #[({ rect := ⟨0, 0, lines, cols⟩, isRoot := true } : Win)], root := {} } : Tree) 0 r :=
+    ⟨{ rect := ⟨0, 0, lines, cols⟩, isRoot := true }, by simp, rfl⟩
+  refine ⟨tinv, rfl, ?_, List.nodup_nil, by intro i hi; simp at hi, ?_, ⟨?_, ?_⟩, ?_, ?_, ?_, ?_⟩
+  · intro i w hl; obtain ⟨_, rfl⟩ := hlive i w hl; show (1 : Int) ≤ 1; omega
+  · intro i w h hf _; obtain ⟨_, rfl⟩ := hget i w h; cases hf
+  · intro k p hk; simp at hk
+  · intro k _; simp [holders]
+  · intro _ _; rfl
+  · intro _ h; exact absurd (.inl hroot) h
+  · intro h; cases h
+  · intro k b hb; simp at hb
+
+theorem liftT_ok {st : St} {r : Out Tree} {t' : Tree} (h : r = .ok t') : liftT st r = .ok { st with tree := t' } := by
+  unfold liftT; rw [h]; rfl
+
+/-- Every operation that runs no handler keeps the invariant and never fails. -/
+theorem step_plain_ok {cfg : Cfg} (R : Repaired cfg) {st : St} (inv : SInv st) (op : Op) (hp : op.plain = true) :
+    ∃ st' r, step cfg st op = .ok (st', r) ∧ SInv st' := by
+  cases op <;> simp only [Op.plain, Bool.false_eq_true] at hp <;> unfold step
+  case newTerm lines cols mock => exact ⟨_, _, rfl, SInv.init lines cols⟩
+  case win p r f =>
+    by_cases hu : usableW st p = true
+    · obtain ⟨⟨pw, hpl⟩, _⟩ := usableW_spec inv.tinv hu
+      simp only [hu, Bool.not_true, Bool.false_eq_true, if_false]
+      obtain ⟨st', id, hn, inv'⟩ := newWin_ok inv hpl r (flagBit f 0) (flagBit f 1) (flagBit f 2) (flagBit f 3)
+      simp only [hn, bind_ok, pure_ok]
+      exact ⟨_, _, rfl, inv'⟩
+    · simp only [hu, Bool.not_false, if_true, skipR, pure_ok]; exact ⟨_, _, rfl, inv⟩
+  case act a =>
+    cases a <;> simp only [simpleOp]
+    case unref w =>
+      by_cases hh : heldW st w = true
+      · obtain ⟨ww, hw⟩ := heldW_live hh
+        simp only [hh, if_true]
+        have inv1 := inv.setX_same w { getX st w with appRefs := (getX st w).appRefs - 1 } rfl
+        obtain ⟨st', hu, inv'⟩ := unrefW_ok R inv1 (x := w) (xw := ww) (by simpa using hw)
+        simp only [okR, hu, bind_ok, pure_ok]
+        exact ⟨_, _, rfl, inv'⟩
+      · simp only [hh, Bool.false_eq_true, if_false, skipR, pure_ok]; exact ⟨_, _, rfl, inv⟩
+    case ref w =>
+      by_cases hh : heldW st w = true
+      · obtain ⟨ww, hw⟩ := heldW_live hh
+        simp only [hh, if_true]
+        have inv1 := inv.setX_same w { getX st w with appRefs := (getX st w).appRefs + 1 } rfl
+        obtain ⟨st', hu, inv'⟩ := refW_ok inv1 (win := w) (ww := ww) (by simpa using hw)
+        simp only [okR, hu, bind_ok, pure_ok]
+        exact ⟨_, _, rfl, inv'⟩
+      · simp only [hh, Bool.false_eq_true, if_false, skipR, pure_ok]; exact ⟨_, _, rfl, inv⟩
+    case close w =>
+      by_cases hh : heldW st w = true
+      · obtain ⟨ww, hw⟩ := heldW_live hh
+        simp only [hh, if_true]
+        obtain ⟨t', hc, C⟩ := closeT_ok R.closePurges R.dragForgottenOnClose inv.tinv hw
+        have inv1 := inv.setX_same w { getX st w with detached := true } rfl
+        have := inv1.of_closed (win := w) (ww := ww) (t' := t') (by simpa using hw) (by simpa using C)
+        simp only [okR, liftT_ok hc, bind_ok, pure_ok]
+        exact ⟨_, _, rfl, this⟩
+      · simp only [hh, Bool.false_eq_true, if_false, skipR, pure_ok]; exact ⟨_, _, rfl, inv⟩
+    case restack c w =>
+      by_cases hh : (usableW st w && isRestack c) = true
+      · simp only [hh, if_true]
+        simp only [Bool.and_eq_true] at hh
+        obtain ⟨⟨ww, hw⟩, hreach⟩ := usableW_spec inv.tinv hh.1
+        obtain ⟨t', hq, inv', hwins⟩ := request_ok inv.tinv hh.2 hw hreach
+        simp only [okR, liftT_ok hq, bind_ok, pure_ok]
+        refine ⟨_, _, rfl, inv.of_tree inv' (by rw [hwins]) ?_⟩
+        intro i x hx
+        exact ⟨x, by rw [hwins]; exact hx, rfl, fun _ h => h⟩
+      · simp only [hh, Bool.false_eq_true, if_false, skipR, pure_ok]; exact ⟨_, _, rfl, inv⟩
+    case hide w =>
+      by_cases hh : usableW st w = true
+      · simp only [hh, if_true]
+        obtain ⟨⟨ww, hw⟩, _⟩ := usableW_spec inv.tinv hh
+        obtain ⟨t', hq, inv', hrel, hrc⟩ := hideT_ok inv.tinv hw
+        simp only [okR, liftT_ok hq, bind_ok, pure_ok]
+        exact ⟨_, _, rfl, inv.of_rel' inv' hrel hrc⟩
+      · simp only [hh, Bool.false_eq_true, if_false, skipR, pure_ok]; exact ⟨_, _, rfl, inv⟩
+    case «show» w =>
+      by_cases hh : usableW st w = true
+      · simp only [hh, if_true]
+        obtain ⟨⟨ww, hw⟩, _⟩ := usableW_spec inv.tinv hh
+        obtain ⟨t', hq, inv', hrel, hrc⟩ := showT_ok inv.tinv hw
+        simp only [okR, liftT_ok hq, bind_ok, pure_ok]
+        exact ⟨_, _, rfl, inv.of_rel' inv' hrel hrc⟩
+      · simp only [hh, Bool.false_eq_true, if_false, skipR, pure_ok]; exact ⟨_, _, rfl, inv⟩
+    case flush =>
+      by_cases hh : heldW st 0 = true
+      · simp only [hh, if_true]
+        obtain ⟨r, hr⟩ := heldW_live hh
+        obtain ⟨t', hq, inv', hrel, _, _, hrc⟩ := flushT_ok inv.tinv hr
+        simp only [okR, liftT_ok hq, bind_ok, pure_ok]
+        exact ⟨_, _, rfl, inv.of_rel' inv' hrel hrc⟩
+      · simp only [hh, Bool.false_eq_true, if_false, skipR, pure_ok]; exact ⟨_, _, rfl, inv⟩
+    case unbindSelf => simp only [skipR, pure_ok]; exact ⟨_, _, rfl, inv⟩
+  case geom w r =>
+    by_cases hu : usableW st w = true
+    · obtain ⟨⟨ww, hw⟩, _⟩ := usableW_spec inv.tinv hu
+      simp only [hu, Bool.not_true, Bool.false_eq_true, if_false]
+      obtain ⟨t', hq, inv', hrel, hrc⟩ := setGeomT_ok inv.tinv hw r
+      simp only [okR, liftT_ok hq, bind_ok, pure_ok]
+      exact ⟨_, _, rfl, inv.of_rel' inv' hrel hrc⟩
+    · simp only [hu, Bool.not_false, if_true, skipR, pure_ok]; exact ⟨_, _, rfl, inv⟩
+  case expose w =>
+    by_cases hu : usableW st w = true
+    · obtain ⟨⟨ww, hw⟩, _⟩ := usableW_spec inv.tinv hu
+      simp only [hu, Bool.not_true, Bool.false_eq_true, if_false, okR,
+        exposeWalk_ok inv.tinv w ww hw _ (chainFuel_gt hw), bind_ok, pure_ok]
+      exact ⟨_, _, rfl, inv⟩
+    · simp only [hu, Bool.not_false, if_true, skipR, pure_ok]; exact ⟨_, _, rfl, inv⟩
+  case bind w ev ret acts =>
+    by_cases hu : usableW st w = true
+    · obtain ⟨⟨ww, hw⟩, _⟩ := usableW_spec inv.tinv hu
+      simp only [hu, Bool.not_true, Bool.false_eq_true, if_false]
+      unfold bindEvent
+      simp only [getW, get_live hw, bind_ok, pure_ok]
+      exact ⟨_, _, rfl, inv.setX_same w _ rfl⟩
+    · simp only [hu, Bool.not_false, if_true, skipR, pure_ok]; exact ⟨_, _, rfl, inv⟩
+  case unbind w id =>
+    by_cases hu : usableW st w = true
+    · obtain ⟨⟨ww, hw⟩, _⟩ := usableW_spec inv.tinv hu
+      simp only [hu, Bool.not_true, Bool.false_eq_true, if_false, okR]
+      unfold unbindEvent
+      simp only [getW, get_live hw, bind_ok]
+      split
+      · simp only [pure_ok, bind_ok]; exact ⟨_, _, rfl, inv.setX_same w _ rfl⟩
+      · simp only [pure_ok, bind_ok]; exact ⟨_, _, rfl, inv.setX_same w _ rfl⟩
+    · simp only [hu, Bool.not_false, if_true, skipR, pure_ok]; exact ⟨_, _, rfl, inv⟩
+  case pen => exact ⟨_, _, rfl, pen_new_ok inv⟩
+  case pref k =>
+    by_cases hh : heldP st k = true
+    · simp only [hh, Bool.not_true, Bool.false_eq_true, if_false]
+      obtain ⟨st', h1, inv'⟩ := pref_ok inv hh
+      simp only [okR, h1, bind_ok, pure_ok]
+      exact ⟨_, _, rfl, inv'⟩
+    · simp only [hh, Bool.not_false, if_true, skipR, pure_ok]; exact ⟨_, _, rfl, inv⟩
+  case punref k =>
+    by_cases hh : heldP st k = true
+    · simp only [hh, Bool.not_true, Bool.false_eq_true, if_false]
+      obtain ⟨st', h1, inv'⟩ := punref_ok inv hh
+      simp only [okR, h1, bind_ok, pure_ok]
+      exact ⟨_, _, rfl, inv'⟩
+    · simp only [hh, Bool.not_false, if_true, skipR, pure_ok]; exact ⟨_, _, rfl, inv⟩
+  case pset k =>
+    by_cases hh : heldP st k = true
+    · simp only [hh, Bool.not_true, Bool.false_eq_true, if_false, pure_ok]; exact ⟨_, _, rfl, inv⟩
+    · simp only [hh, Bool.not_false, if_true, skipR, pure_ok]; exact ⟨_, _, rfl, inv⟩
+  case setpen w p =>
+    by_cases hu : usableW st w = true
+    · obtain ⟨⟨ww, hw⟩, _⟩ := usableW_spec inv.tinv hu
+      simp only [hu, Bool.not_true, Bool.false_eq_true, if_false]
+      cases p with
+      | none =>
+        obtain ⟨st', h1, inv'⟩ := setPen_ok inv hw none (by intro k hk; cases hk)
+        simp only [okR, h1, bind_ok, pure_ok]
+        exact ⟨_, _, rfl, inv'⟩
+      | some k =>
+        by_cases hh : heldP st k = true
+        · simp only [hh, Bool.not_true, Bool.false_eq_true, if_false]
+          obtain ⟨st', h1, inv'⟩ := setPen_ok inv hw (some k) (by intro k' hk; cases hk; exact hh)
+          simp only [okR, h1, bind_ok, pure_ok]
+          exact ⟨_, _, rfl, inv'⟩
+        · simp only [hh, Bool.not_false, if_true, skipR, pure_ok]; exact ⟨_, _, rfl, inv⟩
+    · simp only [hu, Bool.not_false, if_true, skipR, pure_ok]; exact ⟨_, _, rfl, inv⟩
+  case tref =>
+    by_cases hh : heldT st = true
+    · simp only [hh, Bool.not_true, Bool.false_eq_true, if_false, pure_ok]; exact ⟨_, _, rfl, tref_ok inv hh⟩
+    · simp only [hh, Bool.not_false, if_true, skipR, pure_ok]; exact ⟨_, _, rfl, inv⟩
+  case tunref =>
+    by_cases hh : heldT st = true
+    · simp only [hh, Bool.not_true, Bool.false_eq_true, if_false]
+      obtain ⟨st', h1, inv'⟩ := tunref_ok inv hh
+      simp only [okR, h1, bind_ok, pure_ok]
+      exact ⟨_, _, rfl, inv'⟩
+    · simp only [hh, Bool.not_false, if_true, skipR, pure_ok]; exact ⟨_, _, rfl, inv⟩
+  case str bytes => exact ⟨_, _, rfl, inv.set_strs _⟩
+  case sref k =>
+    by_cases hh : heldS st k = true
+    · simp only [hh, Bool.not_true, Bool.false_eq_true, if_false]
+      unfold heldS at hh
+      cases hs : st.strs[k]? with
+      | none => simp [hs] at hh
+      | some s =>
+        simp only [hs, Bool.and_eq_true, Bool.not_eq_true'] at hh
+        have hlt : k < st.strs.size := by
+          by_cases hlt : k < st.strs.size
+          · exact hlt
+          · have := Array.getElem?_eq_none (xs := st.strs) (Nat.le_of_not_lt hlt)
+            rw [hs] at this; cases this
+        unfold strRef
+        simp only [okR, Option.getD_some, Array.getElem?_setIfInBounds, if_true, hlt, hh.1, Bool.false_eq_true, if_false,
+          pure_ok, bind_ok]
+        exact ⟨_, _, rfl, (inv.set_strs _).set_strs _⟩
+    · simp only [hh, Bool.not_false, if_true, skipR, pure_ok]; exact ⟨_, _, rfl, inv⟩
+  case sunref k =>
+    by_cases hh : heldS st k = true
+    · simp only [hh, Bool.not_true, Bool.false_eq_true, if_false]
+      unfold heldS at hh
+      cases hs : st.strs[k]? with
+      | none => simp [hs] at hh
+      | some s =>
+        simp only [hs, Bool.and_eq_true, Bool.not_eq_true'] at hh
+        have hlt : k < st.strs.size := by
+          by_cases hlt : k < st.strs.size
+          · exact hlt
+          · have := Array.getElem?_eq_none (xs := st.strs) (Nat.le_of_not_lt hlt)
+            rw [hs] at this; cases this
+        unfold strUnref
+        simp only [okR, Option.getD_some, Array.getElem?_setIfInBounds, if_true, hlt, hh.1, Bool.false_eq_true, if_false]
+        split
+        · simp only [pure_ok, bind_ok]; exact ⟨_, _, rfl, (inv.set_strs _).set_strs _⟩
+        · simp only [pure_ok, bind_ok]; exact ⟨_, _, rfl, (inv.set_strs _).set_strs _⟩
+    · simp only [hh, Bool.not_false, if_true, skipR, pure_ok]; exact ⟨_, _, rfl, inv⟩
+  case sget k =>
+    by_cases hh : heldS st k = true
+    · simp only [hh, Bool.not_true, Bool.false_eq_true, if_false, pure_ok]; exact ⟨_, _, rfl, inv⟩
+    · simp only [hh, Bool.not_false, if_true, skipR, pure_ok]; exact ⟨_, _, rfl, inv⟩
+  case rb lines cols =>
+    refine ⟨_, _, rfl, ?_⟩
+    unfold rbNew
+    refine ⟨inv.tinv, inv.wx_size, inv.rc, List.nodup_nil, by intro i hi; simp at hi, inv.dead_pen,
+      ⟨inv.pens.rc, inv.pens.ex⟩, inv.term_held, inv.term_free, inv.term_dead, ?_⟩
+    intro j b hb hf
+    simp only [Array.getElem?_push] at hb
+    split at hb
+    · cases hb; show (1 : Int) ≤ 1; omega
+    · exact inv.rb_rc j b hb hf
+  case bref k =>
+    by_cases hh : heldB st k = true
+    · obtain ⟨b, hb, hfb⟩ := heldB_spec hh
+      have hlt : k < st.rbs.size := by
+        by_cases hlt : k < st.rbs.size
+        · exact hlt
+        · have := Array.getElem?_eq_none (xs := st.rbs) (Nat.le_of_not_lt hlt)
+          rw [hb] at this; cases this
+      simp only [hh, Bool.not_true, Bool.false_eq_true, if_false, hb, Option.getD_some]
+      unfold rbRef
+      simp only [okR, Array.getElem?_setIfInBounds, if_true, hlt, hfb, Bool.false_eq_true, if_false, pure_ok, bind_ok]
+      refine ⟨_, _, rfl, ?_⟩
+      rw [Array.setIfInBounds_setIfInBounds]
+      exact inv.set_rb k _ (fun _ => by have := inv.rb_rc k b hb hfb; show 1 ≤ b.refcount + 1; omega)
+    · simp only [hh, Bool.not_false, if_true, skipR, pure_ok]; exact ⟨_, _, rfl, inv⟩
+  case bunref k =>
+    by_cases hh : heldB st k = true
+    · obtain ⟨b, hb, hfb⟩ := heldB_spec hh
+      have hlt : k < st.rbs.size := by
+        by_cases hlt : k < st.rbs.size
+        · exact hlt
+        · have := Array.getElem?_eq_none (xs := st.rbs) (Nat.le_of_not_lt hlt)
+          rw [hb] at this; cases this
+      have hr := inv.rb_rc k b hb hfb
+      simp only [hh, Bool.not_true, Bool.false_eq_true, if_false, hb, Option.getD_some]
+      unfold rbUnref
+      simp only [okR, Array.getElem?_setIfInBounds, if_true, hlt, hfb, Bool.false_eq_true, if_false]
+      have hge : ¬ b.refcount < 1 := by omega
+      simp only [hge, if_false, pure_ok, bind_ok]
+      refine ⟨_, _, rfl, ?_⟩
+      rw [Array.setIfInBounds_setIfInBounds]
+      refine inv.set_rb k _ ?_
+      intro hf'
+      by_cases hz : b.refcount - 1 = 0
+      · simp [hz] at hf'
+      · simp only [hz, if_false]
+        show 1 ≤ b.refcount - 1
+        omega
+    · simp only [hh, Bool.not_false, if_true, skipR, pure_ok]; exact ⟨_, _, rfl, inv⟩
+  case breset k => exact rbUpd_ok inv k _ (fun b => ⟨_, rfl, rfl, rfl⟩)
+  case bsave k => exact rbUpd_ok inv k _ (fun b => ⟨_, rfl, rfl, rfl⟩)
+  case bsavepen k => exact rbUpd_ok inv k _ (fun b => ⟨_, rfl, rfl, rfl⟩)
+  case brestore k => exact rbUpd_ok inv k _ (fun b => ⟨_, rfl, rfl, rfl⟩)
+  case bsetpen k p =>
+    by_cases hh : heldB st k = true
+    · simp only [hh, Bool.not_true, Bool.false_eq_true, if_false]
+      cases p with
+      | none => exact ⟨_, _, rfl, inv⟩
+      | some q =>
+        by_cases hq : heldP st q = true
+        · simp only [hq, Bool.not_true, Bool.false_eq_true, if_false, pure_ok]; exact ⟨_, _, rfl, inv⟩
+        · simp only [hq, Bool.not_false, if_true, skipR, pure_ok]; exact ⟨_, _, rfl, inv⟩
+    · simp only [hh, Bool.not_false, if_true, skipR, pure_ok]; exact ⟨_, _, rfl, inv⟩
+  case bflush k =>
+    by_cases hh : heldB st k = true
+    · simp only [hh, Bool.not_true, Bool.false_eq_true, if_false]
+      by_cases ht : heldT st = true
+      · simp only [ht, Bool.not_true, Bool.false_eq_true, if_false]
+        exact rbUpd_ok inv k _ (fun b => ⟨_, rfl, rfl, rfl⟩)
+      · simp only [ht, Bool.not_false, if_true, skipR, pure_ok]; exact ⟨_, _, rfl, inv⟩
+    · simp only [hh, Bool.not_false, if_true, skipR, pure_ok]; exact ⟨_, _, rfl, inv⟩
+  case bcell k line col len =>
+    by_cases hh : heldB st k = true
+    · simp only [hh, Bool.not_true, Bool.false_eq_true, if_false]
+      have hb0 : ∀ (r : Int), ∃ s, showBuffer len ⟨r, []⟩ = some s :=
+        fun r => showBuffer_some (bounded_nil r _)
+      -- whatever the cell, the call either reports an error without storing or stays inside the buffer
+      split
+      · exact ⟨_, _, rfl, inv⟩
+      · rename_i c hc
+        have hbd : ∃ s, showBuffer len c = some s := by
+          split at hc
+          · cases hc; exact hb0 _
+          · split at hc
+            · cases hc; exact hb0 _
+            · rw [R.spanExactFit] at hc
+              exact showBuffer_some (bounded_getSpanText hc)
+        obtain ⟨s, hs⟩ := hbd
+        simp only [hs, pure_ok]
+        exact ⟨_, _, rfl, inv⟩
+    · simp only [hh, Bool.not_false, if_true, skipR, pure_ok]; exact ⟨_, _, rfl, inv⟩
+  case bspan k line col len =>
+    by_cases hh : heldB st k = true
+    · simp only [hh, Bool.not_true, Bool.false_eq_true, if_false]
+      split
+      · exact ⟨_, _, rfl, inv⟩
+      · split
+        · exact ⟨_, _, rfl, inv⟩
+        · split
+          · exact ⟨_, _, rfl, inv⟩
+          · split
+            · exact ⟨_, _, rfl, inv⟩
+            · rename_i c hc
+              rw [R.spanExactFit] at hc
+              obtain ⟨s, hs⟩ := showBuffer_some (len := len) (bounded_getSpanText hc)
+              simp only [hs, pure_ok]
+              exact ⟨_, _, rfl, inv⟩
+    · simp only [hh, Bool.not_false, if_true, skipR, pure_ok]; exact ⟨_, _, rfl, inv⟩
+
+end Tickit.Life
